@@ -1,10 +1,807 @@
-//! C21 — not built yet.
+//! C21 Output formats list exactly the selected payload, well-formed.
+//!
+//! A data set with generated trust-anchor names / exception comments is rendered in all 13
+//! formats under a generated selection (built the way the `vrps` command builds it, from a query
+//! string, or through the real HTTP dispatcher). Each document is parsed by the independent
+//! parsers of `parsers.rs` and compared with an own selection reference on address bits.
+
+use std::cell::RefCell;
+use std::collections::BTreeMap;
+use std::net::IpAddr;
+use std::path::Path;
+use std::str::FromStr;
+use std::sync::Arc;
+
+use proptest::prelude::*;
+use routinator::metrics::{Metrics, TalMetrics};
+use routinator::output::{Output, OutputFormat, Selection};
+use routinator::payload::{PayloadInfo, PayloadSnapshot};
+use routinator::slurm::{ExceptionInfo, LocalExceptions};
+use rpki::repository::tal::TalInfo;
+use rpki::repository::x509::{Time, Validity};
+use rpki::resources::addr::Prefix;
+use rpki::resources::asn::Asn;
+use serde::{Deserialize, Serialize};
 
 use crate::core::*;
+use crate::fmtx::*;
+use crate::parsers::*;
+use crate::pay::*;
 
-pub const IMPLEMENTED: bool = false;
+pub const KEY_JSON: &str = "C21/json/tal-name-unescaped";
+pub const KEY_SLURM: &str = "C21/slurm/tal-name-unescaped";
+pub const KEY_SLURM2: &str = "C21/slurm2/tal-name-unescaped";
+pub const KEY_JSONEXT: &str = "C21/jsonext/control-char-unescaped";
 
-pub fn run(_ctx: &Ctx, _rep: &mut Report, _replay: Option<&serde_json::Value>) {
-    eprintln!("C21: check not implemented");
-    std::process::exit(2);
+#[derive(Serialize, Deserialize, Clone, Debug, PartialEq)]
+pub enum InfoSpec {
+    Exception { comment: Option<String>, path: Option<String> },
+    Published { tal: String, uri: Option<String> },
+}
+
+impl InfoSpec {
+    /// The trust-anchor field of csv / json / slurm ("N/A" for local exceptions).
+    fn ta(&self) -> String {
+        match self {
+            InfoSpec::Exception { .. } => "N/A".into(),
+            InfoSpec::Published { tal, .. } => tal.clone(),
+        }
+    }
+    fn strings(&self) -> Vec<&str> {
+        match self {
+            InfoSpec::Exception { comment, path } => comment.iter().chain(path.iter()).map(|s| s.as_str()).collect(),
+            InfoSpec::Published { tal, .. } => vec![tal.as_str()],
+        }
+    }
+    fn to_info(&self) -> PayloadInfo {
+        match self {
+            InfoSpec::Exception { comment, path } => PayloadInfo::from(Arc::new(ExceptionInfo { path: path.as_ref().map(|p| Arc::from(Path::new(p))), comment: comment.clone() })),
+            InfoSpec::Published { tal, uri } => {
+                let v = Validity::new(Time::utc(2024, 1, 2, 3, 4, 5), Time::utc(2031, 6, 7, 8, 9, 10));
+                routinator::payload::verif_published_info(
+                    TalInfo::from_name(tal.clone()).into_arc(),
+                    uri.as_ref().map(|u| rpki::uri::Rsync::from_string(u.clone()).expect("generated rsync uri")),
+                    v,
+                    v,
+                    Time::utc(2030, 1, 1, 0, 0, 0),
+                )
+            }
+        }
+    }
+    /// What the history path can carry: no object URI (the harness trust anchor has none), no
+    /// exceptions-file path.
+    fn served(&self) -> InfoSpec {
+        match self {
+            InfoSpec::Exception { comment, .. } => InfoSpec::Exception { comment: comment.clone(), path: None },
+            InfoSpec::Published { tal, .. } => InfoSpec::Published { tal: tal.clone(), uri: None },
+        }
+    }
+}
+
+#[derive(Serialize, Deserialize, Clone, Debug)]
+pub struct AsnSel {
+    /// 0 an origin's AS, 1 a router key's AS, 2 an ASPA customer, 3 an ASPA provider, 4 random
+    pub kind: u8,
+    pub idx: usize,
+    pub rnd: u32,
+    /// written without the "AS" prefix in query strings
+    pub bare: bool,
+}
+
+#[derive(Serialize, Deserialize, Clone, Debug)]
+pub struct PrefixSel {
+    pub idx: usize,
+    /// 0 equal, 1 more specific, 2 less specific, 3 sibling, 4 random, 5 other family /0
+    pub rel: u8,
+    pub k: u8,
+    pub bits: u128,
+}
+
+#[derive(Serialize, Deserialize, Clone, Debug)]
+pub struct Case {
+    pub origins: Vec<(MOrigin, InfoSpec)>,
+    pub keys: Vec<(MKey, InfoSpec)>,
+    pub aspas: Vec<(MAspa, InfoSpec)>,
+    /// number of additional fixed-width exception origins (to make the stream span chunks)
+    pub fill: u32,
+    pub asns: Vec<AsnSel>,
+    pub prefixes: Vec<PrefixSel>,
+    pub more_specifics: bool,
+    /// exclude route origins / router keys / ASPAs
+    pub excl: (bool, bool, bool),
+    /// 0 Selection built like the vrps command, 1 Output::from_query, 2 HTTP dispatcher
+    pub via: u8,
+    pub alias: bool,
+    pub comma_exclude: bool,
+}
+
+//------------------------------------------------------------------------------------------
+// Reference selection
+
+fn bits_of(addr: IpAddr) -> u128 {
+    match addr {
+        IpAddr::V4(a) => (u32::from(a) as u128) << 96,
+        IpAddr::V6(a) => u128::from(a),
+    }
+}
+
+/// Does prefix a (addr, len) cover prefix b?
+fn pfx_covers(a: (IpAddr, u8), b: (IpAddr, u8)) -> bool {
+    if a.0.is_ipv4() != b.0.is_ipv4() || a.1 > b.1 {
+        return false;
+    }
+    a.1 == 0 || (bits_of(a.0) ^ bits_of(b.0)) >> (128 - a.1 as u32) == 0
+}
+
+fn pfx_from_bits(v4: bool, bits: u128, len: u8) -> (IpAddr, u8) {
+    let fam = if v4 { 32 } else { 128 };
+    let len = len.min(fam);
+    let m = if len == 0 { 0 } else { u128::MAX << (128 - len as u32) };
+    let b = bits & m;
+    if v4 {
+        (IpAddr::from(((b >> 96) as u32).to_be_bytes()), len)
+    } else {
+        (IpAddr::from(b.to_be_bytes()), len)
+    }
+}
+
+pub struct Resolved {
+    pub origins: Vec<(MOrigin, InfoSpec)>,
+    pub keys: Vec<(MKey, InfoSpec)>,
+    pub aspas: Vec<(MAspa, InfoSpec)>,
+    pub sel_asns: Vec<(u32, bool)>,
+    pub sel_prefixes: Vec<(IpAddr, u8)>,
+}
+
+fn resolve(case: &Case) -> Resolved {
+    // distinct payload keys (precondition of PayloadSnapshot::new): first occurrence wins
+    let mut origins: Vec<(MOrigin, InfoSpec)> = Vec::new();
+    for (o, i) in &case.origins {
+        if !origins.iter().any(|(x, _)| x == o) {
+            origins.push((o.clone(), i.clone()));
+        }
+    }
+    for n in 0..case.fill {
+        let f = crate::c18::filler(n);
+        if !origins.iter().any(|(x, _)| *x == f) {
+            origins.push((f, InfoSpec::Exception { comment: None, path: None }));
+        }
+    }
+    let mut keys: Vec<(MKey, InfoSpec)> = Vec::new();
+    for (k, i) in &case.keys {
+        if !keys.iter().any(|(x, _)| x == k) {
+            keys.push((k.clone(), i.clone()));
+        }
+    }
+    let mut aspas: Vec<(MAspa, InfoSpec)> = Vec::new();
+    for (a, i) in &case.aspas {
+        let a = servable_aspa(a);
+        if !aspas.iter().any(|(x, _)| x.customer == a.customer) {
+            aspas.push((a, i.clone()));
+        }
+    }
+    if case.via == 2 {
+        // what can be installed through the validation report + SLURM path
+        for (_, i) in origins.iter_mut() {
+            *i = i.served();
+        }
+        for (_, i) in keys.iter_mut() {
+            *i = InfoSpec::Exception { comment: i.strings().first().map(|s| s.to_string()), path: None };
+        }
+        for (a, i) in aspas.iter_mut() {
+            // ASPAs can only be published; a 0-provider ASPA cannot come out of a decoded object
+            let tal = i.strings().first().map(|s| s.to_string()).unwrap_or_default();
+            *i = InfoSpec::Published { tal, uri: None };
+            let _ = a;
+        }
+    }
+    let sel_asns = case
+        .asns
+        .iter()
+        .map(|s| {
+            let pick = |n: usize, f: &dyn Fn(usize) -> u32| if n == 0 { s.rnd } else { f(s.idx % n) };
+            let asn = match s.kind {
+                0 => pick(origins.len(), &|i| origins[i].0.asn),
+                1 => pick(keys.len(), &|i| keys[i].0.asn),
+                2 => pick(aspas.len(), &|i| aspas[i].0.customer),
+                3 => pick(aspas.len(), &|i| aspas[i].0.providers.first().cloned().unwrap_or(s.rnd)),
+                _ => s.rnd,
+            };
+            (asn, s.bare)
+        })
+        .collect();
+    let sel_prefixes = case
+        .prefixes
+        .iter()
+        .map(|s| {
+            if origins.is_empty() || s.rel == 4 {
+                return pfx_from_bits(s.k % 2 == 0, s.bits, s.k % if s.k % 2 == 0 { 33 } else { 129 });
+            }
+            let o = &origins[s.idx % origins.len()].0;
+            let v4 = o.is_v4();
+            let low = if o.len == 0 { s.bits } else if o.len >= 128 { 0 } else { s.bits >> o.len as u32 };
+            match s.rel {
+                0 => pfx_from_bits(v4, o.bits(), o.len),
+                1 => pfx_from_bits(v4, o.bits() | low, o.len.saturating_add(1 + s.k % 8)),
+                2 => pfx_from_bits(v4, o.bits(), o.len.saturating_sub(1 + s.k % 8)),
+                3 => {
+                    if o.len == 0 {
+                        pfx_from_bits(v4, 0, 0)
+                    } else {
+                        pfx_from_bits(v4, o.bits() ^ (1u128 << (128 - o.len as u32)), o.len)
+                    }
+                }
+                _ => pfx_from_bits(!v4, 0, 0),
+            }
+        })
+        .collect();
+    Resolved { origins, keys, aspas, sel_asns, sel_prefixes }
+}
+
+pub struct Expected {
+    pub origins: Vec<(MOrigin, InfoSpec)>,
+    pub keys: Vec<(MKey, InfoSpec)>,
+    pub aspas: Vec<(MAspa, InfoSpec)>,
+    pub rejected: usize,
+}
+
+/// The documented selection: selectors combine as "or"; an ASN selects origins of that AS (and
+/// keys / ASPAs of that AS / customer), a prefix selects origins whose prefix covers it and,
+/// with more-specifics, origins it covers; without selectors everything is selected; excluded
+/// payload types are dropped.
+fn expected(case: &Case, r: &Resolved) -> Expected {
+    let has_sel = !r.sel_asns.is_empty() || !r.sel_prefixes.is_empty();
+    let asn_hit = |a: u32| r.sel_asns.iter().any(|(s, _)| *s == a);
+    let mut rejected = 0usize;
+    let origins = r
+        .origins
+        .iter()
+        .filter(|(o, _)| {
+            let hit = !has_sel || asn_hit(o.asn) || r.sel_prefixes.iter().any(|p| pfx_covers((o.addr, o.len), *p) || (case.more_specifics && pfx_covers(*p, (o.addr, o.len))));
+            if !hit {
+                rejected += 1;
+            }
+            hit && !case.excl.0
+        })
+        .cloned()
+        .collect();
+    let keys = r
+        .keys
+        .iter()
+        .filter(|(k, _)| {
+            let hit = !has_sel || asn_hit(k.asn);
+            if !hit {
+                rejected += 1;
+            }
+            hit && !case.excl.1
+        })
+        .cloned()
+        .collect();
+    let aspas = r
+        .aspas
+        .iter()
+        .filter(|(a, _)| {
+            let hit = !has_sel || asn_hit(a.customer);
+            if !hit {
+                rejected += 1;
+            }
+            hit && !case.excl.2
+        })
+        .cloned()
+        .collect();
+    Expected { origins, keys, aspas, rejected }
+}
+
+fn query_string(case: &Case, r: &Resolved) -> Option<String> {
+    let mut parts: Vec<String> = Vec::new();
+    let (ka, kp) = if case.alias { ("filter-asn", "filter-prefix") } else { ("select-asn", "select-prefix") };
+    // interleave so that order does not matter
+    for (i, (a, bare)) in r.sel_asns.iter().enumerate() {
+        parts.push(format!("{}={}", ka, if *bare { a.to_string() } else { format!("AS{}", a) }));
+        if let Some(p) = r.sel_prefixes.get(i) {
+            parts.push(format!("{}={}", kp, pct(&format!("{}/{}", p.0, p.1))));
+        }
+    }
+    for p in r.sel_prefixes.iter().skip(r.sel_asns.len()) {
+        parts.push(format!("{}={}", kp, pct(&format!("{}/{}", p.0, p.1))));
+    }
+    if case.more_specifics {
+        parts.push("include=more-specifics".into());
+    }
+    let ex: Vec<&str> = [(case.excl.0, "routeOrigins"), (case.excl.1, "routerKeys"), (case.excl.2, "aspas")].iter().filter(|e| e.0).map(|e| e.1).collect();
+    if !ex.is_empty() {
+        if case.comma_exclude {
+            parts.push(format!("exclude={}", ex.join(",")));
+        } else {
+            for e in ex {
+                parts.push(format!("exclude={}", e));
+            }
+        }
+    }
+    if parts.is_empty() {
+        None
+    } else {
+        Some(parts.join("&"))
+    }
+}
+
+//------------------------------------------------------------------------------------------
+// Judging one document
+
+fn msort<T: Ord + Clone>(v: &[T]) -> Vec<T> {
+    let mut v = v.to_vec();
+    v.sort();
+    v
+}
+
+/// The known-finding key this (format, listed items) combination falls under, if any.
+fn known_shape(format: &str, exp: &Expected) -> Option<&'static str> {
+    let bad_ta = |i: &InfoSpec| matches!(i, InfoSpec::Published { tal, .. } if needs_json_escape(tal));
+    let o = exp.origins.iter().any(|(_, i)| bad_ta(i));
+    let k = exp.keys.iter().any(|(_, i)| bad_ta(i));
+    let a = exp.aspas.iter().any(|(_, i)| bad_ta(i));
+    match format {
+        "json" if o || k || a => Some(KEY_JSON),
+        "slurm" if o || k => Some(KEY_SLURM),
+        "slurm2" if o || k || a => Some(KEY_SLURM2),
+        "jsonext" => {
+            let ctl = |i: &InfoSpec| i.strings().iter().any(|s| has_json_ctl(s));
+            if exp.origins.iter().any(|(_, i)| ctl(i)) || exp.keys.iter().any(|(_, i)| ctl(i)) || exp.aspas.iter().any(|(_, i)| ctl(i)) {
+                Some(KEY_JSONEXT)
+            } else {
+                None
+            }
+        }
+        _ => None,
+    }
+}
+
+fn judge_doc(format: &str, body: &[u8], case: &Case, exp: &Expected) -> Result<(), (String, String)> {
+    let shape = known_shape(format, exp);
+    let key = |k: &str| shape.map(|s| s.to_string()).unwrap_or_else(|| format!("C21/{}/{}", format, k));
+    let listed = parse_output(format, body).map_err(|e| (key("malformed"), format!("{} output does not parse: {}; output: {:?}", format, e, truncate(&String::from_utf8_lossy(body), 600))))?;
+    let lists_keys = matches!(format, "json" | "jsonext" | "slurm" | "slurm2");
+    let lists_aspas = matches!(format, "json" | "jsonext" | "slurm2");
+    let lists_origins = !matches!(format, "summary" | "none");
+    // items, each once
+    let want_o: Vec<MOrigin> = if lists_origins { exp.origins.iter().map(|(o, _)| if listed.without_maxlen { MOrigin { max_len: o.len, ..o.clone() } } else { o.clone() }).collect() } else { vec![] };
+    let got_o: Vec<MOrigin> = listed.origins.iter().map(|(o, _)| o.clone()).collect();
+    if msort(&got_o) != msort(&want_o) {
+        let only_got: Vec<&MOrigin> = got_o.iter().filter(|o| !want_o.contains(o)).take(3).collect();
+        let only_want: Vec<&MOrigin> = want_o.iter().filter(|o| !got_o.contains(o)).take(3).collect();
+        return Err((key("origins-differ"), format!("{}: {} origins listed, {} expected; listed but not selected: {:?}; selected but not listed: {:?}", format, got_o.len(), want_o.len(), only_got, only_want)));
+    }
+    let want_k: Vec<MKey> = if lists_keys { exp.keys.iter().map(|(k, _)| k.clone()).collect() } else { vec![] };
+    let got_k: Vec<MKey> = listed.keys.iter().map(|(k, _)| k.clone()).collect();
+    if msort(&got_k) != msort(&want_k) {
+        return Err((key("router-keys-differ"), format!("{}: router keys listed {:?}, expected {:?}", format, got_k, want_k)));
+    }
+    let want_a: Vec<MAspa> = if lists_aspas { exp.aspas.iter().map(|(a, _)| a.clone()).collect() } else { vec![] };
+    let got_a: Vec<MAspa> = listed.aspas.iter().map(|(a, _)| a.clone()).collect();
+    if msort(&got_a) != msort(&want_a) {
+        return Err((key("aspas-differ"), format!("{}: ASPAs listed {:?}, expected {:?}", format, got_a, want_a)));
+    }
+    // members present exactly for the types that are not excluded (manual, json / jsonext)
+    if matches!(format, "json" | "jsonext") && listed.members != (!case.excl.0, !case.excl.1, !case.excl.2) {
+        return Err((key("members"), format!("{}: members (roas, routerKeys, aspas) present = {:?} with exclusions {:?}", format, listed.members, case.excl)));
+    }
+    // trust-anchor / comment strings decode to the injected ones
+    match format {
+        "csv" | "csvcompat" | "json" | "slurm" | "slurm2" => {
+            let want: Vec<(MOrigin, String)> = exp.origins.iter().map(|(o, i)| (o.clone(), i.ta())).collect();
+            let got: Vec<(MOrigin, String)> = listed.origins.iter().map(|(o, t)| (o.clone(), t.clone().unwrap_or_default())).collect();
+            if msort(&got) != msort(&want) {
+                return Err((key("ta-field"), format!("{}: origin trust-anchor fields {:?}, expected {:?}", format, got.iter().map(|g| &g.1).take(6).collect::<Vec<_>>(), want.iter().map(|g| &g.1).take(6).collect::<Vec<_>>())));
+            }
+            if lists_keys {
+                let want: Vec<(MKey, String)> = exp.keys.iter().map(|(o, i)| (o.clone(), i.ta())).collect();
+                let got: Vec<(MKey, String)> = listed.keys.iter().map(|(o, t)| (o.clone(), t.clone().unwrap_or_default())).collect();
+                if msort(&got) != msort(&want) {
+                    return Err((key("ta-field"), format!("{}: router key trust-anchor fields differ", format)));
+                }
+            }
+            if lists_aspas {
+                let want: Vec<(MAspa, String)> = exp.aspas.iter().map(|(o, i)| (o.clone(), i.ta())).collect();
+                let got: Vec<(MAspa, String)> = listed.aspas.iter().map(|(o, t)| (o.clone(), t.clone().unwrap_or_default())).collect();
+                if msort(&got) != msort(&want) {
+                    return Err((key("ta-field"), format!("{}: ASPA trust-anchor fields differ", format)));
+                }
+            }
+        }
+        "csvext" => {
+            let want: Vec<(MOrigin, String)> = exp.origins.iter().map(|(o, i)| (o.clone(), match i { InfoSpec::Published { uri: Some(u), .. } => u.clone(), _ => "N/A".into() })).collect();
+            let got: Vec<(MOrigin, String)> = listed.origins.iter().map(|(o, t)| (o.clone(), t.clone().unwrap_or_default())).collect();
+            if msort(&got) != msort(&want) {
+                return Err((key("uri-field"), format!("csvext: URI fields {:?}, expected {:?}", got.iter().map(|g| &g.1).take(4).collect::<Vec<_>>(), want.iter().map(|g| &g.1).take(4).collect::<Vec<_>>())));
+            }
+        }
+        "jsonext" => {
+            let src = |kind: &str, i: &InfoSpec| match i {
+                InfoSpec::Published { tal, .. } => vec![(kind.to_string(), Some(tal.clone()))],
+                InfoSpec::Exception { comment, .. } => vec![("exception".to_string(), comment.clone())],
+            };
+            let mut want: Vec<(MItem, Vec<(String, Option<String>)>)> = Vec::new();
+            want.extend(exp.origins.iter().map(|(o, i)| (MItem::Origin(o.clone()), src("roa", i))));
+            want.extend(exp.keys.iter().map(|(o, i)| (MItem::Key(o.clone()), src("cer", i))));
+            want.extend(exp.aspas.iter().map(|(o, i)| (MItem::Aspa(o.clone()), src("aspa", i))));
+            let items: Vec<MItem> = listed.origins.iter().map(|(o, _)| MItem::Origin(o.clone())).chain(listed.keys.iter().map(|(o, _)| MItem::Key(o.clone()))).chain(listed.aspas.iter().map(|(o, _)| MItem::Aspa(o.clone()))).collect();
+            let got: Vec<(MItem, Vec<(String, Option<String>)>)> = items.into_iter().zip(listed.sources.iter().cloned()).collect();
+            if msort(&got) != msort(&want) {
+                return Err((key("source-field"), format!("jsonext: source entries differ from the injected infos (first listed: {:?})", got.first())));
+            }
+        }
+        _ => {}
+    }
+    // SLURM output must be accepted by the SLURM readers with exactly these assertions
+    if format == "slurm" || format == "slurm2" {
+        let text = String::from_utf8_lossy(body);
+        let le = LocalExceptions::from_json(&text, true).map_err(|e| (key("not-a-slurm-file"), format!("{} output rejected by LocalExceptions::from_json: {}", format, e)))?;
+        let got: Vec<(MOrigin, Option<String>)> = le.origin_assertions().map(|(o, i)| (MOrigin::from_rpki(o), i.comment.clone())).collect();
+        let want: Vec<(MOrigin, Option<String>)> = exp.origins.iter().map(|(o, i)| (o.clone(), Some(i.ta()))).collect();
+        if msort(&got) != msort(&want) {
+            return Err((key("slurm-assertions"), format!("{}: prefix assertions read back differ from the listed origins", format)));
+        }
+        let got: Vec<(MKey, Option<String>)> = le.router_key_assertions().map(|(k, i)| (MKey::from_rpki(&k), i.comment.clone())).collect();
+        let want: Vec<(MKey, Option<String>)> = exp.keys.iter().map(|(o, i)| (o.clone(), Some(i.ta()))).collect();
+        if msort(&got) != msort(&want) {
+            return Err((key("slurm-assertions"), format!("{}: bgpsec assertions read back differ from the listed keys", format)));
+        }
+        let file = rpki::slurm::SlurmFile::from_str(&text).map_err(|e| (key("not-a-slurm-file"), format!("{} output rejected by rpki SlurmFile: {}", format, e)))?;
+        let got: Vec<(MAspa, Option<String>)> = file.assertions.aspa.iter().flatten().map(|a| (MAspa { customer: a.customer_asn.into_u32(), providers: a.provider_asns.iter().map(|p| p.into_u32()).collect() }, a.comment.clone())).collect();
+        let want: Vec<(MAspa, Option<String>)> = if format == "slurm2" { exp.aspas.iter().map(|(o, i)| (o.clone(), Some(i.ta()))).collect() } else { vec![] };
+        if msort(&got) != msort(&want) {
+            return Err((key("slurm-assertions"), format!("{}: ASPA assertions read back {:?}, expected {:?}", format, got, want)));
+        }
+    }
+    Ok(())
+}
+
+//------------------------------------------------------------------------------------------
+// The property
+
+pub struct Env<'a> {
+    pub kit: &'a Kit,
+    pub rt: &'a tokio::runtime::Runtime,
+    pub ctx: &'a Ctx,
+    pub exclude: bool,
+    pub excluded: RefCell<BTreeMap<&'static str, u64>>,
+}
+
+fn build_output(case: &Case, r: &Resolved) -> Result<Output, String> {
+    if case.via == 0 {
+        let mut out = Output::new();
+        if !r.sel_asns.is_empty() || !r.sel_prefixes.is_empty() {
+            let mut sel = Selection::new();
+            for p in &r.sel_prefixes {
+                sel.push_prefix(Prefix::new(p.0, p.1).map_err(|e| e.to_string())?);
+            }
+            for (a, _) in &r.sel_asns {
+                sel.push_asn(Asn::from_u32(*a));
+            }
+            sel.set_more_specifics(case.more_specifics);
+            out.set_selection(sel);
+        }
+        if case.excl.0 {
+            out.no_route_origins();
+        }
+        if case.excl.1 {
+            out.no_router_keys();
+        }
+        if case.excl.2 {
+            out.no_aspas();
+        }
+        Ok(out)
+    } else {
+        Output::from_query(query_string(case, r).as_deref()).map_err(|e| format!("well-formed query {:?} rejected: {}", query_string(case, r), e))
+    }
+}
+
+fn snapshot_of(r: &Resolved) -> PayloadSnapshot {
+    PayloadSnapshot::new(
+        r.origins.iter().map(|(o, i)| (o.to_rpki(false), i.to_info())),
+        r.keys.iter().map(|(k, i)| (k.to_rpki(), i.to_info())),
+        r.aspas.iter().map(|(a, i)| (a.to_rpki(), i.to_info())),
+        None,
+    )
+}
+
+fn metrics_for(r: &Resolved) -> Metrics {
+    let mut m = Metrics::new();
+    let mut names: Vec<String> = r.origins.iter().map(|(_, i)| i).chain(r.keys.iter().map(|(_, i)| i)).chain(r.aspas.iter().map(|(_, i)| i)).filter_map(|i| if let InfoSpec::Published { tal, .. } = i { Some(tal.clone()) } else { None }).collect();
+    names.sort();
+    names.dedup();
+    for n in names.into_iter().take(3) {
+        m.tals.push(TalMetrics::new(TalInfo::from_name(n).into_arc()));
+    }
+    m
+}
+
+fn install_served(env: &Env, r: &Resolved) -> Served {
+    let served = Served::new(env.ctx.scratch(), 2, false);
+    let mut pubs: BTreeMap<String, PubSpec> = BTreeMap::new();
+    let mut local = LocalSpec::default();
+    for (o, i) in &r.origins {
+        match i {
+            InfoSpec::Published { tal, .. } => pubs.entry(tal.clone()).or_insert_with(|| PubSpec { tal_name: tal.clone(), ..Default::default() }).origins.push(o.clone()),
+            InfoSpec::Exception { comment, .. } => local.origins.push((o.clone(), comment.clone())),
+        }
+    }
+    for (k, i) in &r.keys {
+        if let InfoSpec::Exception { comment, .. } = i {
+            local.keys.push((k.clone(), comment.clone()));
+        }
+    }
+    for (a, i) in &r.aspas {
+        if let InfoSpec::Published { tal, .. } = i {
+            pubs.entry(tal.clone()).or_insert_with(|| PubSpec { tal_name: tal.clone(), ..Default::default() }).aspas.push(a.clone());
+        }
+    }
+    let pubs: Vec<PubSpec> = pubs.into_values().collect();
+    served.update(env.kit, &pubs, &local, Metrics::new());
+    served
+}
+
+pub fn prop(env: &Env, case: &Case, info: &mut CaseInfo) -> Verdict {
+    let r = resolve(case);
+    let exp = expected(case, &r);
+    let listed_total = exp.origins.len() + exp.keys.len() + exp.aspas.len();
+    let has_sel = !r.sel_asns.is_empty() || !r.sel_prefixes.is_empty();
+    let selective = has_sel && listed_total > 0 && exp.rejected > 0;
+    info.class(format!("via={}", case.via));
+    if has_sel {
+        info.class(if selective { "selection_splits_data" } else if exp.rejected == 0 { "selection_admits_all" } else { "selection_admits_none" });
+    }
+    if case.more_specifics && !r.sel_prefixes.is_empty() {
+        info.class("more_specifics");
+    }
+    if case.excl != (false, false, false) {
+        info.class("type_excluded");
+    }
+    let all_strings: Vec<&str> = exp.origins.iter().map(|(_, i)| i).chain(exp.keys.iter().map(|(_, i)| i)).chain(exp.aspas.iter().map(|(_, i)| i)).flat_map(|i| i.strings()).collect();
+    if all_strings.iter().any(|s| needs_json_escape(s)) {
+        info.class("listed_string_needs_json_escape");
+    }
+    if all_strings.iter().any(|s| !s.is_ascii()) {
+        info.class("listed_string_non_ascii");
+    }
+    // render
+    let mut docs: Vec<(&str, Vec<u8>, usize)> = Vec::new();
+    if case.via == 2 {
+        let served = install_served(env, &r);
+        let q = query_string(case, &r).map(|q| format!("?{}", q)).unwrap_or_default();
+        for f in FORMATS.iter().cloned().chain(std::iter::once("origins-api")) {
+            let uri = if f == "origins-api" { format!("/api/v1/origins/{}", q) } else { format!("/{}{}", f, q) };
+            let resp = get(env.rt, &served.handler, &uri);
+            if resp.status != 200 {
+                return Verdict::fail(format!("C21/{}/http-status", f), format!("GET {} -> {} {:?}", uri, resp.status, String::from_utf8_lossy(&resp.body())));
+            }
+            docs.push((if f == "origins-api" { "json" } else { f }, resp.body(), resp.chunks.len()));
+        }
+    } else {
+        let output = match build_output(case, &r) {
+            Ok(o) => o,
+            Err(e) => return Verdict::fail("C21/query-rejected", e),
+        };
+        let snapshot = Arc::new(snapshot_of(&r));
+        let metrics = Arc::new(metrics_for(&r));
+        for f in FORMATS {
+            let format = OutputFormat::from_str(f).expect("format name");
+            let chunks: Vec<bytes::Bytes> = output.clone().stream(snapshot.clone(), metrics.clone(), format).collect();
+            let body: Vec<u8> = chunks.iter().flat_map(|c| c.iter().cloned()).collect();
+            if *f != "rpsl" {
+                let mut written = Vec::new();
+                output.clone().write(snapshot.clone(), metrics.clone(), format, &mut written).expect("write to vec");
+                if written != body {
+                    return Verdict::fail(format!("C21/{}/stream-vs-write", f), format!("{}: Output::stream ({} bytes in {} chunks) and Output::write ({} bytes) differ", f, body.len(), chunks.len(), written.len()));
+                }
+            }
+            docs.push((f, body, chunks.len()));
+        }
+    }
+    let mut judged_escape = false;
+    for (f, body, nchunks) in &docs {
+        if *nchunks >= 2 {
+            info.class("multi_chunk_document");
+        }
+        if let Some(k) = known_shape(f, &exp) {
+            if env.exclude && env.ctx.known_key(k).is_some() && !env.ctx.strict {
+                *env.excluded.borrow_mut().entry(k).or_default() += 1;
+                info.class(format!("{}_not_judged(known shape)", f));
+                continue;
+            }
+        }
+        if matches!(*f, "json" | "jsonext" | "slurm" | "slurm2") && all_strings.iter().any(|s| needs_json_escape(s) || !s.is_ascii()) {
+            judged_escape = true;
+        }
+        if let Err((key, msg)) = judge_doc(f, body, case, &exp) {
+            return Verdict::fail(key, msg);
+        }
+    }
+    info.nt(selective || judged_escape);
+    Verdict::Pass
+}
+
+//------------------------------------------------------------------------------------------
+// Generators
+
+fn info_strategy(class: StrClass) -> BoxedStrategy<InfoSpec> {
+    let uri = prop::option::of((0u32..40).prop_map(|n| format!("rsync://repo.test/mod/obj-{}.roa", n)));
+    prop_oneof![
+        3 => (text_strategy(class, 10), uri).prop_map(|(tal, uri)| InfoSpec::Published { tal, uri }),
+        1 => Just(InfoSpec::Published { tal: "ripe".into(), uri: None }),
+        2 => (prop::option::of(text_strategy(class, 12)), prop::option::weighted(0.3, text_strategy(class, 10).prop_map(|s| format!("/etc/{}", s.replace('\0', ""))))).prop_map(|(comment, path)| InfoSpec::Exception { comment, path }),
+    ]
+    .boxed()
+}
+
+fn case_of_class(class: StrClass) -> BoxedStrategy<Case> {
+    let asn_sel = (prop_oneof![4 => Just(0u8), 2 => Just(1u8), 2 => Just(2u8), 1 => Just(3u8), 1 => Just(4u8)], any::<usize>(), asn_strategy(), any::<bool>()).prop_map(|(kind, idx, rnd, bare)| AsnSel { kind, idx, rnd, bare });
+    let pfx_sel = (any::<usize>(), prop_oneof![3 => Just(0u8), 3 => Just(1u8), 3 => Just(2u8), 1 => Just(3u8), 1 => Just(4u8), 1 => Just(5u8)], any::<u8>(), any::<u128>()).prop_map(|(idx, rel, k, bits)| PrefixSel { idx, rel, k, bits });
+    (
+        (prop::collection::vec((origin_strategy(), info_strategy(class)), 0..=16), prop::collection::vec((key_strategy(), info_strategy(class)), 0..=5), prop::collection::vec((aspa_strategy(), info_strategy(class)), 0..=5)),
+        prop_oneof![30 => Just(0u32), 1 => 480u32..620],
+        (prop::collection::vec(asn_sel, 0..=3), prop::collection::vec(pfx_sel, 0..=3), any::<bool>()),
+        (prop::bool::weighted(0.15), prop::bool::weighted(0.2), prop::bool::weighted(0.2)),
+        (0u8..3, any::<bool>(), any::<bool>()),
+    )
+        .prop_map(|((origins, keys, aspas), fill, (asns, prefixes, more_specifics), excl, (via, alias, comma_exclude))| Case { origins, keys, aspas, fill, asns, prefixes, more_specifics, excl, via, alias, comma_exclude })
+        .boxed()
+}
+
+fn case_strategy() -> BoxedStrategy<Case> {
+    prop_oneof![
+        2 => case_of_class(StrClass::Plain),
+        6 => case_of_class(StrClass::Tame),
+        3 => case_of_class(StrClass::Quoted),
+        2 => case_of_class(StrClass::Ctl),
+        2 => case_of_class(StrClass::Wild),
+    ]
+    .boxed()
+}
+
+//------------------------------------------------------------------------------------------
+// Parser self-test against routinator's own fixtures
+
+fn selftest() -> Result<(), String> {
+    let o = MOrigin::new("12.34.56.0".parse().unwrap(), 24, None, 1234);
+    let k = MKey { ski: [0u8; 20], asn: 1234, info: vec![0u8; 64] };
+    let a = MAspa::new(1234, [1, 2, 3, 4]);
+    let dir = Path::new("/repo/test/output");
+    let mut n = 0;
+    for f in FORMATS.iter().filter(|f| **f != "rpsl") {
+        for bits in 0..8u8 {
+            let (ro, rk, ra) = (bits & 4 != 0, bits & 2 != 0, bits & 1 != 0);
+            let path = dir.join(format!("{}{}{}.{}", ro as u8, rk as u8, ra as u8, f));
+            let data = std::fs::read(&path).map_err(|e| format!("{}: {}", path.display(), e))?;
+            let listed = parse_output(f, &data).map_err(|e| format!("fixture {} rejected by the {} parser: {}", path.display(), f, e))?;
+            let lists_keys = matches!(*f, "json" | "jsonext" | "slurm" | "slurm2");
+            let lists_aspas = matches!(*f, "json" | "jsonext" | "slurm2");
+            let lists_origins = !matches!(*f, "summary" | "none");
+            let want_o = if ro && lists_origins { vec![o.clone(), o.clone()] } else { vec![] };
+            let want_k = if rk && lists_keys { vec![k.clone(), k.clone()] } else { vec![] };
+            let want_a = if ra && lists_aspas { vec![a.clone(), a.clone()] } else { vec![] };
+            if listed.origins.iter().map(|x| x.0.clone()).collect::<Vec<_>>() != want_o || listed.keys.iter().map(|x| x.0.clone()).collect::<Vec<_>>() != want_k || listed.aspas.iter().map(|x| x.0.clone()).collect::<Vec<_>>() != want_a {
+                return Err(format!("fixture {}: parser lists {:?}", path.display(), listed));
+            }
+            if matches!(*f, "csv" | "csvcompat" | "json" | "slurm" | "slurm2") && listed.origins.iter().any(|x| x.1.as_deref() != Some("N/A")) {
+                return Err(format!("fixture {}: trust-anchor field not decoded as N/A", path.display()));
+            }
+            if matches!(*f, "json" | "jsonext") && listed.members != (ro, rk, ra) {
+                return Err(format!("fixture {}: members {:?}", path.display(), listed.members));
+            }
+            n += 1;
+        }
+    }
+    if n != 96 {
+        return Err(format!("{} fixtures checked, expected 96", n));
+    }
+    // hand-written samples
+    let rpsl = "\nroute: 93.175.147.0/24\norigin: AS196615\ndescr: RPKI attestation\nmnt-by: NA\ncreated: 2021-05-07T14:28:17Z\nlast-modified: 2021-05-07T14:28:17Z\nsource: ROA-RIPE-RPKI-ROOT\n\n\nroute6: 2001:7fb:fd03::/48\norigin: AS196615\ndescr: RPKI attestation\nmnt-by: NA\ncreated: 2021-05-07T14:28:17Z\nlast-modified: 2021-05-07T14:28:17Z\nsource: ROA-MY\nTAL-RPKI-ROOT\n\n";
+    let l = parse_output("rpsl", rpsl.as_bytes()).map_err(|e| format!("rpsl sample rejected: {}", e))?;
+    if l.origins.len() != 2 || l.origins[0].1.as_deref() != Some("RIPE") || l.origins[1].0.asn != 196615 {
+        return Err(format!("rpsl sample parsed as {:?}", l.origins));
+    }
+    let csv = "ASN,IP Prefix,Max Length,Trust Anchor\nAS1,10.0.0.0/8,8,a,b\nc\nAS2,::/0,128,x\n";
+    let l = parse_output("csv", csv.as_bytes()).map_err(|e| format!("csv sample rejected: {}", e))?;
+    if l.origins.len() != 2 || l.origins[0].1.as_deref() != Some("a,b\nc") {
+        return Err(format!("csv sample parsed as {:?}", l.origins));
+    }
+    let compat = "\"ASN\",\"IP Prefix\",\"Max Length\",\"Trust Anchor\"\n\"AS1\",\"10.0.0.0/8\",\"8\",\"a\"b\"\n";
+    let l = parse_output("csvcompat", compat.as_bytes()).map_err(|e| format!("csvcompat sample rejected: {}", e))?;
+    if l.origins.len() != 1 || l.origins[0].1.as_deref() != Some("a\"b") {
+        return Err(format!("csvcompat sample parsed as {:?}", l.origins));
+    }
+    let bad: &[(&str, &str)] = &[
+        ("json", "{ \"metadata\": { \"generated\": 0, \"generatedTime\": \"x\" }, \"roas\": [ { \"asn\": \"AS1\", \"prefix\": \"10.0.0.0/8\", \"maxLength\": 8, \"ta\": \"a\"b\" } ] }"),
+        ("json", "{ \"metadata\": { \"generated\": 0, \"generatedTime\": \"x\" }, \"roas\": [ { \"asn\": \"AS1\", \"prefix\": \"10.0.0.0/8\", \"maxLength\": 8, \"ta\": \"a\" } { \"asn\": \"AS1\", \"prefix\": \"10.0.0.0/8\", \"maxLength\": 8, \"ta\": \"a\" } ] }"),
+        ("json", "{ \"metadata\": { \"generated\": 0, \"generatedTime\": \"x\" }, \"roas\": [ { \"asn\": \"AS1\", \"prefix\": \"10.0.0.1/8\", \"maxLength\": 8, \"ta\": \"a\" } ] }"),
+        ("jsonext", "{ \"metadata\": { \"generated\": 0, \"generatedTime\": \"x\" }, \"roas\": [ { \"asn\": \"AS1\", \"prefix\": \"10.0.0.0/8\", \"maxLength\": 8, \"source\": [ { \"type\": \"exception\", \"path\": null, \"comment\": \"tab\there\" } ] } ] }"),
+        ("slurm", "{ \"slurmVersion\": 2, \"validationOutputFilters\": { \"prefixFilters\": [ ], \"bgpsecFilters\": [ ] }, \"locallyAddedAssertions\": { \"prefixAssertions\": [ ], \"bgpsecAssertions\": [ ] } }"),
+        ("slurm2", "{ \"slurmVersion\": 2, \"validationOutputFilters\": { \"prefixFilters\": [ ], \"bgpsecFilters\": [ ], \"aspaFilters\": [ ] }, \"locallyAddedAssertions\": { \"prefixAssertions\": [ { \"asn\": 1, \"prefix\": \"10.0.0.0/8\", \"comment\": \"x\" }, ], \"bgpsecAssertions\": [ ], \"aspaAssertions\": [ ] } }"),
+        ("csv", "ASN,IP Prefix,Max Length\nAS1,10.0.0.0/8,8,x\n"),
+        ("csv", "ASN,IP Prefix,Max Length,Trust Anchor\ngarbage\n"),
+        ("csvext", "URI,ASN,IP Prefix,Max Length,Not Before,Not After\nN/A,AS1,10.0.0.0/8,8,N/A\n"),
+        ("bird1", "roa 10.0.0.0/8 max 8 as 1\n"),
+        ("bird2", "roa 10.0.0.0/8 max 8 as 1;\n"),
+        ("openbgpd", "roa-set {\n    10.0.0.0/8 source-as 1\n"),
+        ("openbgpd", "roa-set {\n    10.0.0.0/8 maxlen 8 source-as 1\n}\n"),
+        ("none", "x"),
+    ];
+    for (f, text) in bad {
+        if parse_output(f, text.as_bytes()).is_ok() {
+            return Err(format!("malformed {} sample accepted: {:?}", f, text));
+        }
+    }
+    Ok(())
+}
+
+fn directed_case(tal: &str, comment: Option<&str>) -> Case {
+    Case {
+        origins: vec![
+            (MOrigin::new("192.0.2.0".parse().unwrap(), 24, None, 64496), InfoSpec::Published { tal: tal.into(), uri: None }),
+            (MOrigin::new("2001:db8::".parse().unwrap(), 32, Some(48), 64497), InfoSpec::Exception { comment: comment.map(|s| s.to_string()), path: None }),
+        ],
+        keys: vec![(MKey { ski: [7; 20], asn: 64496, info: vec![1, 2, 3] }, InfoSpec::Published { tal: tal.into(), uri: None })],
+        aspas: vec![(MAspa::new(64496, [64497, 64498]), InfoSpec::Published { tal: tal.into(), uri: None })],
+        fill: 0,
+        asns: vec![],
+        prefixes: vec![],
+        more_specifics: false,
+        excl: (false, false, false),
+        via: 0,
+        alias: false,
+        comma_exclude: false,
+    }
+}
+
+pub fn run(ctx: &Ctx, rep: &mut Report, replay: Option<&serde_json::Value>) {
+    rep.rule(
+        "data sets of 0..=16 origins, 0..=5 router keys, 0..=5 ASPAs (plus, in ~3% of cases, 480..620 fixed-width origins so the stream spans chunks), each item with a published-object info (TAL name, optional rsync URI) or a local-exception info (optional comment, optional path); every free-text string of a case from one class (plain / no quote, backslash, C0 control / with quote+backslash / with C0 controls / anything; no ASCII digits); 0..=3 ASN selectors (an origin's, key's, ASPA customer's or provider's AS, random) and 0..=3 prefix selectors derived from the origins (equal, more specific, less specific, sibling, random, other family), more-specifics on/off, each payload type excluded with p=0.15..0.2; built like the vrps command (Selection), via Output::from_query (select-*/filter-* aliases, exclude comma or repeated) or fetched from the real dispatcher (/FORMAT?query and /api/v1/origins/); all 13 formats per case; non-trivial = selection admits some and rejects some items, or a judged JSON/SLURM document renders a string needing escaping or non-ASCII; distinct by serialised case",
+    );
+    rep.assume("router keys and ASPAs are selected by select-asn (key AS / customer AS) only; prefix selectors never select them");
+    rep.assume("csv, csvcompat and rpsl are parsed record-wise with trust-anchor names allowed to span lines (names contain no digits, so they cannot imitate a record head); their well-formedness for such names is not demanded by the property");
+    rep.assume("via the HTTP dispatcher infos are limited to what a validation run can produce with the harness trust anchor: published origins/ASPAs without object URI, router keys and commented origins as SLURM assertions");
+    if let Err(e) = selftest() {
+        eprintln!("C21 preamble failed: {}", e);
+        std::process::exit(2);
+    }
+    let kit = Kit::new();
+    let rt = runtime();
+    let env = Env { kit: &kit, rt: &rt, ctx, exclude: true, excluded: RefCell::new(BTreeMap::new()) };
+    if let Some(v) = replay {
+        let t: Tagged<Case> = serde_json::from_value(v.clone()).expect("replay");
+        run_case(ctx, rep, &t.sub, &t.case, |c, i| prop(&env, c, i));
+        return;
+    }
+    // Directed representatives: one per known key (each judged on the one format of its key),
+    // and neighbours that must pass.
+    let all = Env { kit: &kit, rt: &rt, ctx, exclude: false, excluded: RefCell::new(BTreeMap::new()) };
+    let only = |fmt: &'static str| {
+        move |c: &Case, i: &mut CaseInfo| {
+            let r = resolve(c);
+            let exp = expected(c, &r);
+            let output = build_output(c, &r).expect("output");
+            let mut body = Vec::new();
+            output.write(Arc::new(snapshot_of(&r)), Arc::new(metrics_for(&r)), OutputFormat::from_str(fmt).unwrap(), &mut body).unwrap();
+            i.nt(true);
+            i.class(format!("directed:{}", fmt));
+            match judge_doc(fmt, &body, c, &exp) {
+                Ok(()) => Verdict::Pass,
+                Err((k, m)) => Verdict::fail(k, m),
+            }
+        }
+    };
+    run_case(ctx, rep, "directed-json", &directed_case("my \"own\" tal", None), only("json"));
+    run_case(ctx, rep, "directed-slurm", &directed_case("dir\\tal", None), only("slurm"));
+    run_case(ctx, rep, "directed-slurm2", &directed_case("tab\ttal", None), only("slurm2"));
+    run_case(ctx, rep, "directed-jsonext", &directed_case("ripe", Some("added by\u{1b}[1m ops\r\n")), only("jsonext"));
+    // neighbours: quotes / backslashes in jsonext (escaped there), non-ASCII names, quotes in comments
+    run_case(ctx, rep, "directed-jsonext", &directed_case("my \"own\" \\ tal", Some("say \"hi\" \\o/")), only("jsonext"));
+    run_case(ctx, rep, "all", &directed_case("ta-ünï-😀, {x}", Some("ok")), |c, i| prop(&all, c, i));
+    run_prop(ctx, rep, "all", ctx.tier.pick(5000, 120_000), case_strategy(), |c, i| prop(&env, c, i));
+    for (k, n) in env.excluded.borrow().iter() {
+        for _ in 0..*n {
+            rep.exclude_known(k);
+        }
+    }
 }
